@@ -1,6 +1,7 @@
 //! C19 — ant-colony generation yields valid tours; pheromone updates are well-formed.
 //! Code: mahf::components::generative::{PheromoneMatrix::{new,index,index_mut,mul_assign},AsPheromoneUpdate::execute,MinMaxPheromoneUpdate::{from_params,execute},AcoGeneration::{init,execute}}
 //! Out: more than 3 cities; tour lengths outside [2^-10, 2^20], trails above 2^20; general real alpha/beta (powf is over-approximated by the engine: alpha = beta = 1 with an exact stub); tour generation is thorough-tier best effort (rand's WeightedIndex machinery: the single-draw roulette probe ran out of 16 GB)
+//! Reclimit: mahf::state::(registry::)?StateRegistry::<.*>::find(_mut)?::<.*>=2
 //! Assume: inductive one-step from an arbitrary pheromone matrix satisfying the reachable-state invariant (finite, non-negative; within [min,max] for the max-min variant); evaporation 0.5 (so that evaporate-then-deposit is recomputed bit-exactly without a symbolic multiplier); population = [greedy tour, one sampled tour]
 use mahf::components::generative::{AcoGeneration, AsPheromoneUpdate, MinMaxPheromoneUpdate, PheromoneMatrix};
 use mahf::components::Component;
